@@ -139,6 +139,7 @@ void wire_stmts(Scope &sc, const JV &stmts);
 // harness node factories (hv_nodes.cpp)
 WiringPortRef wire_src(Scope &sc, const JV &st);
 WiringPortRef wire_push_src(Scope &sc, const JV &st);
+WiringPortRef wire_snode(Scope &sc, const JV &st, std::vector<WiringPortRef> ins);
 WiringPortRef wire_node(Scope &sc, const JV &st, std::vector<WiringPortRef> ins);
 // graph dump
 void dump_graph_builder(std::string &out, const GraphBuilder &gb, int depth);
